@@ -43,7 +43,7 @@ func derivesFromGlobal(v ssa.Value, depth int) *ssa.Global {
 		if x.Op.String() == "*" {
 			// loaded reference value (slice, map, pointer) of a global
 			switch x.Type().Underlying().(type) {
-			case *types.Slice, *types.Map, *types.Pointer:
+			case *types.Slice, *types.Map, *types.Pointer, *types.Chan:
 				return derivesFromGlobal(x.X, depth+1)
 			}
 		}
@@ -81,6 +81,24 @@ func runGlobals(p *Program, r *RuleResult) {
 				case *ssa.MapUpdate:
 					if g = derivesFromGlobal(x.Map, 0); g != nil {
 						what = "map update"
+					}
+				case *ssa.Send:
+					// a package-level channel is a mailbox shared by every run in the process
+					if g = derivesFromGlobal(x.Chan, 0); g != nil {
+						what = "send on the channel"
+					}
+				case *ssa.Select:
+					for _, st := range x.States {
+						if gg := derivesFromGlobal(st.Chan, 0); gg != nil {
+							g = gg
+							what = "select on the channel"
+						}
+					}
+				case *ssa.UnOp:
+					if x.Op == token.ARROW {
+						if g = derivesFromGlobal(x.X, 0); g != nil {
+							what = "receive from the channel"
+						}
 					}
 				case ssa.CallInstruction:
 					for ai, a := range x.Common().Args {
